@@ -18,6 +18,7 @@ type Op struct {
 	E    ElemSpec `json:"e"`    // element / value
 	K    ElemSpec `json:"k"`    // key (maps)
 	Ti   int      `json:"ti"`   // type info value
+	Rej  bool     `json:"rej"`  // a request the model expects to be rejected (C18)
 	Mode string   `json:"mode"` // commit kind
 	W    int      `json:"wk"`   // workers
 	Fail []int    `json:"fail"` // failing ledger write calls (1-based within the op)
@@ -720,6 +721,18 @@ func (w *World) handBack(st atree.Storable, keep bool, keepName string) (int, st
 	return v, c
 }
 
+// discardFresh releases a container the harness created as the value of a request that was then rejected
+// (the caller still owns it).
+func (w *World) discardFresh(nh *Handle) {
+	if nh.Kind == "A" {
+		must(nh.Arr.PopIterate(func(st atree.Storable) { w.dispose(st) }))
+		must(w.St.Remove(nh.Arr.SlabID()))
+	} else {
+		must(nh.Map.PopIterate(func(k, v atree.Storable) { w.dispose(k); w.dispose(v) }))
+		must(w.St.Remove(nh.Map.SlabID()))
+	}
+}
+
 // ExecNested runs the nested-engine operations ("n.*"); handles are named by the model's container numbers.
 func (w *World) ExecNested(op *Op) (string, Res) {
 	h := w.handle(op.H)
@@ -748,6 +761,9 @@ func (w *World) ExecNested(op *Op) (string, Res) {
 		if err == nil && nh != nil {
 			w.H[nh.Name] = nh
 		}
+		if err != nil && nh != nil {
+			w.discardFresh(nh)
+		}
 		return "NIns", fin(err, Res{})
 	case "n.set":
 		v, nh := w.valueFor(&op.E, op.New, op.H)
@@ -758,6 +774,8 @@ func (w *World) ExecNested(op *Op) (string, Res) {
 				w.H[nh.Name] = nh
 			}
 			r.V, r.Vc = w.handBack(old, op.Keep, keepName(op))
+		} else if nh != nil {
+			w.discardFresh(nh)
 		}
 		return "NSet", fin(err, r)
 	case "n.rem":
